@@ -19,7 +19,8 @@ PROPERTIES = {
               "family) the identities vxc_s = d(n exc)/dn_s and d(n exc)/d(grad n_s) = 2 v_ss grad n_s + v_ud grad n_s' are proved as exact "
               "identities in (n, zeta, grad n) for all admissible inputs, plus pointwise frame, masking at n = 0, exchange+correlation additivity "
               "of get_xc and finiteness at zeta = +-1 by IEEE special-value evaluation. Obligations whose exact proof exceeds the budget (listed "
-              "by name in the evidence: PBE correlation spin-polarised, KSDT spin-polarised at T > 0) are numerically pre-checked only and are "
+              "by name in the evidence: the monolithic engine-A forms of the spin-polarised PBE correlation and of the finite-temperature LDAs at T > 0, "
+              "whose identities are proved in modular form by engine S - see below -, and two finiteness clauses) are numerically pre-checked only and are "
               "NOT counted as discharged.",
         note="floats as exact reals; in-house algebra normaliser and loader transformations trusted (canary + numeric guard on every run); LDA "
              "correlation inside PBE correlation taken by contract (modular); generic gradient; side conditions n > 0, |zeta| < 1",
